@@ -178,8 +178,14 @@ def jobs(tier, seed):
     k = 2 if tier == "quick" else 3
     for cfg in ((JS,) if tier == "quick" else (JS, CM)):
         _sharded(jobs, {"cfg": cfg, "scaffold": free_doc(k, "\n"), "name": "free"}, weight=8, spec=spec)
+    from ..mdutil import shard_job
+
     for name, cfg, sc in CTX:
-        jobs.append({"harness": "roundtrip", "params": {"cfg": cfg, "scaffold": sc, "spec": spec, "name": name}, "weight": 4, "cpu_cap": 1200, "wall_cap": 1800})
+        job = {"harness": "roundtrip", "params": {"cfg": cfg, "scaffold": sc, "spec": spec, "name": name}, "weight": 4, "cpu_cap": 1200, "wall_cap": 1800}
+        if name in ("equal-siblings", "emph-link", "olist-start", "nested-image", "tight-loose", "table-align"):
+            jobs += shard_job(job)  # > 200 CPU-s as one job
+        else:
+            jobs.append(job)
     jobs.append({"harness": "token", "params": {}, "weight": 5, "cpu_cap": 1200, "wall_cap": 1800})
     return jobs
 
